@@ -485,12 +485,12 @@ pub fn par_explore<K: Kit>(
                     let mut ks = ks;
                     ks.push(PRIOR_LIFE);
                     ks.push(PRIOR_LIFE_B);
-                    // quick tier: every sequence gets two of the variants, rotating with the sequence, so
-                    // that every variant meets every scenario root on half of its sequences
-                    if !all_splits && ks.len() > 2 {
+                    // quick tier: every sequence gets ONE of the variants, rotating with the sequence, so
+                    // that every variant meets every scenario root on a quarter of its sequences
+                    if !all_splits && ks.len() > 1 {
                         let r = seq.iter().fold(0usize, |a, l| a.wrapping_mul(31).wrapping_add(*l as usize + 1));
                         let n = ks.len();
-                        ks = vec![ks[r % n], ks[(r + 1 + (r / n) % (n - 1)) % n]];
+                        ks = vec![ks[r % n]];
                     }
                     for k in ks {
                         let r = run_history_split::<K>(&sh.sc, seq, logging, k);
